@@ -7,9 +7,10 @@ inside every grid point:
   generator is built in operator form (components Km, Lm, Ld) and in four-index form.
   (a) both forms are applied (`apply`) to ALL N^2 matrix units -- this decides "every operator"
       by linearity -- outside any context, inside eigenbasis_of(H) and inside eigenbasis_of(X)
-      (X = another real symmetric operator); before conversion, and after `convert_2_tensor`
-      executed in each of the three bases (one fresh operator-form copy per conversion basis,
-      each then compared in all three bases: data and action).
+      (X = another real symmetric operator) and inside eigenbasis_of(Z) (Z complex Hermitian,
+      see "Complex unitary bases"); before conversion, and after `convert_2_tensor`
+      executed in each of the bases (one fresh operator-form copy per conversion basis,
+      each then compared in all bases: data and action).
   (b) a spanning set of N^2 Hermitian unit-trace initial states is propagated with the
       operator form, the four-index form and the converted form in each basis.
   Absolute oracles (independent of both code paths, mc/refmodels/relax_action.py): the action
@@ -96,6 +97,35 @@ per grid point, general initial state, short axis.  Every call after the convers
 what the four-index form gives in that basis and what the same propagator gave there before
 the conversion; the call before it what the operator-form route gives.
 
+Complex unitary bases (redfield, lindblad, td).  Besides "outside", eigenbasis_of(H) and
+eigenbasis_of(X) (real orthogonal transformations for the real Hamiltonians of the grids) the
+basis alphabet has "Z" = eigenbasis_of(a complex Hermitian operator): the transformation matrix
+S is complex unitary, S^T is not S^-1 and S^+ is not S^T (the harness verifies that S^T S is
+not diagonal).  Z is a member of the alphabet of clauses (a), (b), (c): action of both forms on
+all matrix units in Z (in place, and on operands created outside); convert_2_tensor done in
+each of the 4 bases and data/action read in each of the 4; the spanning set propagated by
+operator / four-index / converted form inside Z (absolute oracle on the results read outside);
+TD tensor at its first/last time index read in Z.  The step refinements, expansion orders and
+object histories are not multiplied with it.  Lindblad section: the Hamiltonian pattern
+"complex" (complex couplings; eigenbasis_of(H) itself is then complex unitary in EVERY
+sub-product of the grid point, reference Liouvillian with the complex matrix).
+
+Rotating frame (every section that propagates).  Hamiltonian.set_rwa(blocks) makes every
+propagation routine integrate with H - diag(Omega) and return an evolution marked is_in_rwa,
+which convert_from_RWA(H) takes to the laboratory frame; "the same dynamics" is a statement
+about what the caller holds after that conversion.  Inside every grid point, after everything
+else (the Hamiltonian object changes): plain Hamiltonians get the frame [ground | rest] AFTER
+the tensors were made, aggregate Hamiltonians carry it from the start; spanning set x 3 routes
+x 4 bases on the short axis: route agreement of the data as returned and of the data after
+convert_from_RWA (done outside the contexts); time-independent generators with a plain
+Hamiltonian: laboratory-frame result == reference Taylor polynomial of H - diag(Omega) times
+exp(-i(Omega_a - Omega_b)t) in the site basis and, where the frame commutes with H, in
+eigenbasis_of(H).  Dephasing: the rotating-frame run, converted, against the same analytic
+solution (Taylor remainder of the bound at the frequency the integrated coherence has in the
+frame).  Frame marker: ALL evolutions returned in a grid point (every call of every
+sub-product) by different routes in the same basis with the Hamiltonian in the same state must
+carry the same is_in_rwa.
+
 Tolerances: R = 1e-10 * scale for every identity between representations; (d) computed bound
 exp(D+E)-1 (D = dt * int|C|, E = accumulated Taylor remainder), see lineshape_ob.
 """
@@ -112,6 +142,13 @@ LEVEL = "model_checking"
 RTOL = 1.0e-10
 HALVING = 1.7
 BASES = ("out", "H", "X")
+# + the eigenbasis of a complex Hermitian operator (a complex unitary transformation: S^T is
+# not S^-1): member of the basis alphabet of clauses (a), (b) -- action on all matrix units,
+# conversion done / read there, propagation of the spanning set by all three routes, exact
+# limits of the time-dependent tensor read there; the refinements, expansion orders and
+# object histories are not multiplied with it
+ZBASES = BASES + ("Z",)
+RWA_BLOCKS = [0, 1]       # rotating frame: ground state | all other states
 UNBUILDABLE = ()          # no configuration of this property's space is refused by design
 
 
@@ -126,6 +163,14 @@ class _Acc:
         self.keys = set()
         self.dev = {}
         self.n = 0
+        self.frames = {}
+
+    def frame(self, kind, B, k, sfx, ev, P):
+        """frame marker of a returned evolution (is_in_rwa), grouped by what must agree: the
+        same section, basis and state of the Hamiltonian (rotating frame set or not)"""
+        has = bool(getattr(P.Hamiltonian, "has_rwa", False))
+        self.frames.setdefault((kind, B, has), {}).setdefault((k, sfx), set()).add(
+            bool(getattr(ev, "is_in_rwa", False)))
 
     def worst(self, name, x):
         x = float(x)
@@ -173,15 +218,30 @@ def _basis(name, ham, Xop):
         with qr.eigenbasis_of(ham):
             yield
     elif name == "X":
-        with qr.eigenbasis_of(Xop):
+        with qr.eigenbasis_of(Xop.X):
+            yield
+    elif name == "Z":
+        with qr.eigenbasis_of(Xop.Z):
             yield
     else:
         raise isolation.HarnessError("unknown basis " + str(name))
 
 
+class _Probes:
+    """the operators whose eigenbases are the 'other' bases: X real symmetric (real orthogonal
+    transformation), Z complex Hermitian (complex unitary transformation)"""
+
+    def __init__(self, N):
+        from quantarhei.qm.hilbertspace.operators import SelfAdjointOperator
+        z = RA.probe_operator_complex(N)
+        if RA.complexity_of_eigenbasis(z) < 0.05:
+            raise isolation.HarnessError("eigenbasis of the complex probe is (nearly) real")
+        self.X = SelfAdjointOperator(data=RA.probe_operator(N))
+        self.Z = SelfAdjointOperator(data=z)
+
+
 def _xop(N):
-    from quantarhei.qm.hilbertspace.operators import SelfAdjointOperator
-    return SelfAdjointOperator(data=RA.probe_operator(N))
+    return _Probes(N)
 
 
 def _unit(N, i, j):
@@ -347,6 +407,7 @@ def _propagate(acc, kind, B, k, P, rho, kwargs, nref, cut, sfx="", tag="general"
         return None
     _unchanged(acc, "b/propagate/%s/%s/%s-form-alters-initial-state%s" % (kind, B, k, sfx),
                before, rho, "%s form, basis %s, initial state %s" % (k, B, tag))
+    acc.frame(kind, B, k, sfx, ev, P)
     return ev
 
 
@@ -522,7 +583,7 @@ def _check_forms(acc, kind, mk_op, mk_tensor, ham, Xop, N, ref_from_op, prop):
     # eigenvector gauge numpy.linalg.eigh happens to return for exactly those numbers
     Top = mk_op()
     Tt = mk_tensor()
-    fresh = {B1: mk_op() for B1 in BASES}
+    fresh = {B1: mk_op() for B1 in ZBASES}
     if prop.get("variants"):
         # expansion orders and conversion-after-construction histories (default call only)
         prop = dict(prop, methods=METHODS, late=_late_tensors(mk_op))
@@ -537,7 +598,7 @@ def _check_forms(acc, kind, mk_op, mk_tensor, ham, Xop, N, ref_from_op, prop):
              "four-index data vs reference formula (outside any context)", scale=tscale)
 
     # ---- before conversion ---------------------------------------------------
-    for B in BASES:
+    for B in ZBASES:
         so, st = _site_units(N), _site_units(N)
         with _basis(B, ham, Xop):
             a_op = _apply_units_inbasis(Top, N)
@@ -567,7 +628,7 @@ def _check_forms(acc, kind, mk_op, mk_tensor, ham, Xop, N, ref_from_op, prop):
 
     # ---- conversion in each basis, comparison in each basis --------------------
     conv = {}
-    for B1 in BASES:
+    for B1 in ZBASES:
         Tc = fresh[B1]
         with _basis(B1, ham, Xop):
             Tc.convert_2_tensor()
@@ -575,7 +636,7 @@ def _check_forms(acc, kind, mk_op, mk_tensor, ham, Xop, N, ref_from_op, prop):
             acc.add("a/converted-in-%s/%s/flag" % (B1, kind),
                     "as_operators still True after convert_2_tensor")
         conv[B1] = Tc
-        for B in BASES:
+        for B in ZBASES:
             with _basis(B, ham, Xop):
                 dc = _arr(Tc.data)
                 dt_ = _arr(Tt.data)
@@ -856,7 +917,9 @@ def _check_propagation(acc, kind, forms, conv, ham, Xop, N, prop, Tref, td=False
     ns, mroutes, refm, lprops = None, {}, {}, {}
     if (methods or late) and not (prop.get("refine") and nref == 1 and not kwargs):
         raise isolation.HarnessError("variants on the short axis need the default call")
-    if methods or late:
+    # the rotating-frame block (default call only) also runs on the short axis
+    rwa = bool(prop.get("refine") and nref == 1 and not kwargs)
+    if methods or late or rwa:
         ns = _coarse_length(ta.length, 1, prop["refine"].get("ncmax"), ta.step,
                             prop.get("cutoff") if td else None)
         tas = systems.time_axis(ns, ta.step)
@@ -880,20 +943,37 @@ def _check_propagation(acc, kind, forms, conv, ham, Xop, N, prop, Tref, td=False
     gens = [("complex", gen, hist),
             ("real-dtype", numpy.array(gen.real, dtype=numpy.float64), max(1, hist - 1))]
     freshres = {}         # basis -> route -> general state propagated from a fresh object
-    for B in BASES:
+    for B in ZBASES:
         routes = {"op": props["op"], "tensor": props["tensor"], "conv": cprops[B]}
         keep = []
-        for tag, s in states:
-            rho = {k: ReducedDensityMatrix(data=s.copy()) for k in ROUTES}
+
+        def _one_state(tag, rho):
             got, objs = {}, {}
+            for k in ROUTES:
+                ev = _propagate(acc, kind, B, k, routes[k], rho[k], kwargs, nref, cut, tag=tag)
+                if ev is None:
+                    continue
+                got[k] = _arr(ev.data)
+                objs[k] = ev
+            return got, objs
+
+        done = []
+        if B in BASES:
+            # the context is entered anew for every state
+            for tag, s in states:
+                rho = {k: ReducedDensityMatrix(data=s.copy()) for k in ROUTES}
+                with _basis(B, ham, Xop):
+                    got, objs = _one_state(tag, rho)
+                done.append((tag, got, objs))
+        else:
+            # the complex basis: one entry of the context for the whole spanning set
+            rhos = {tag: {k: ReducedDensityMatrix(data=s.copy()) for k in ROUTES}
+                    for tag, s in states}
             with _basis(B, ham, Xop):
-                for k in ROUTES:
-                    ev = _propagate(acc, kind, B, k, routes[k], rho[k], kwargs, nref, cut,
-                                    tag=tag)
-                    if ev is None:
-                        continue
-                    got[k] = _arr(ev.data)
-                    objs[k] = ev
+                for tag, s in states:
+                    got, objs = _one_state(tag, rhos[tag])
+                    done.append((tag, got, objs))
+        for tag, got, objs in done:
             keep.append((tag, objs))
             if "tensor" in got:
                 sc = max(1.0, float(numpy.max(numpy.abs(got["tensor"]))))
@@ -919,6 +999,9 @@ def _check_propagation(acc, kind, forms, conv, ham, Xop, N, prop, Tref, td=False
                 acc.same("b/absolute/%s/%s/%s" % (kind, k, B), "b.absolute", _arr(ev.data),
                          ref[tag], "state %s propagated with the %s form in basis %s vs Taylor "
                          "polynomial of the reference Liouvillian" % (tag, k, B), scale=sc)
+        if B not in BASES:
+            # the complex basis: clause (b) for the spanning set on the base axis only
+            continue
         # ---- step refinement: all routes again, on the coarser axes --------------------
         if variants:
             _check_refined(acc, kind, B, variants, B, states, dict(keep), ref, ham, Xop,
@@ -985,6 +1068,152 @@ def _check_propagation(acc, kind, forms, conv, ham, Xop, N, prop, Tref, td=False
     # ---- conversion AFTER the propagator was created -------------------------------------
     if late:
         _check_late_conversion(acc, kind, late, lprops, ns, gen, freshres, ham, Xop, cut)
+    # ---- rotating frame of the Hamiltonian (changes the Hamiltonian object: last) ----------
+    if rwa:
+        _check_rwa(acc, kind, forms, conv, ham, Xop, N, tas, ns, states, cut,
+                   None if td else prop.get("H"), None if td else Tref, prop.get("L", 4))
+    _check_frames(acc)
+
+
+def _rwa_absolute_bases(H, omega):
+    """Bases in which the rotating-frame run is the run of the reference generator
+    H - diag(omega): the site basis always; eigenbasis_of(H) where the frame commutes with the
+    Hamiltonian (no element of H between states with different frame frequencies) and the
+    states keep their places in the ascending order of the eigenvalues (the frame frequencies
+    are attached to the POSITIONS of the states) -- in any other basis the package subtracts
+    diag(omega) from the transformed matrix, which is another operator (route agreement is
+    claimed there, no absolute value)."""
+    out = ["out"]
+    H = numpy.asarray(H)
+    N = H.shape[0]
+    for a in range(N):
+        for b in range(N):
+            if omega[a] != omega[b] and H[a, b] != 0:
+                return out
+    # H is block diagonal; the blocks are index ranges: every eigenvector lives in one block,
+    # the positions are kept iff the spectra of consecutive blocks do not interleave
+    starts = [0] + [i for i in range(1, N) if omega[i] != omega[i - 1]]
+    top = -numpy.inf
+    for k, lo in enumerate(starts):
+        hi = starts[k + 1] if k + 1 < len(starts) else N
+        ev = numpy.linalg.eigvalsh(H[lo:hi, lo:hi])
+        if not float(ev[0]) > top:
+            return out
+        top = float(ev[-1])
+    out.append("H")
+    return out
+
+
+def _check_rwa(acc, kind, forms, conv, ham, Xop, N, tas, ns, states, cut, H, Tref, L):
+    """Rotating frame.  Hamiltonian.set_rwa(blocks) makes every propagation routine integrate
+    with H - diag(Omega) (Omega = block averages of the site energies) and return an evolution
+    marked is_in_rwa, which ReducedDensityMatrixEvolution.convert_from_RWA(H) takes to the
+    laboratory frame.  "The same dynamics" is a statement about what the caller holds after that
+    conversion.  Plain Hamiltonians get the frame here, AFTER the tensors were made (blocks
+    RWA_BLOCKS: ground state | the rest); aggregate Hamiltonians carry it from the start.
+
+    Complete sub-product inside the grid point: spanning set x 3 routes x all bases of ZBASES
+    (short axis, default call, one fresh propagator per route).  Per state:
+      * route agreement of the data as returned (read in the context),
+      * route agreement in the laboratory frame (every result is converted with
+        convert_from_RWA after the context is left),
+      * time-independent generators with a plain Hamiltonian: laboratory-frame result ==
+        Taylor polynomial of the reference Liouvillian of H - diag(Omega), times
+        exp(-i (Omega_a - Omega_b) t)  (mc/refmodels/relax_action.py; class R), in the bases of
+        _rwa_absolute_bases."""
+    from quantarhei.qm import ReducedDensityMatrixPropagator, ReducedDensityMatrix
+    if N < 2:
+        return
+    if not getattr(ham, "has_rwa", False):
+        ham.set_rwa(list(RWA_BLOCKS))
+    if not ham.has_rwa:
+        raise isolation.HarnessError("rotating frame not set")
+    props = {k: ReducedDensityMatrixPropagator(tas, ham, T) for k, T in forms.items()}
+    cprops = {B: ReducedDensityMatrixPropagator(tas, ham, T) for B, T in conv.items()}
+    times = numpy.array(tas.data, dtype=float)
+    ref, absb = {}, ()
+    if H is not None and Tref is not None:
+        om = RA.rwa_frequencies(H, RWA_BLOCKS)
+        absb = _rwa_absolute_bases(H, om)
+        Hr = RA.rwa_hamiltonian(H, om)
+        for tag, s in states:
+            ref[tag] = RA.rwa_to_lab(RA.taylor_propagate(Hr, Tref, s, tas.step, ns, L=L), om,
+                                     times)
+    sfx = "/rwa"
+    for B in ZBASES:
+        routes = {"op": props["op"], "tensor": props["tensor"], "conv": cprops[B]}
+        rhos = {(tag, r): ReducedDensityMatrix(data=s.copy()) for tag, s in states
+                for r in ROUTES}
+        got, objs = {}, {}
+        with _basis(B, ham, Xop):
+            for tag, s in states:
+                for r in ROUTES:
+                    ev = _propagate(acc, kind, B, r, routes[r], rhos[(tag, r)], {}, 1, cut,
+                                    sfx=sfx, tag=tag)
+                    if ev is None:
+                        continue
+                    got[(tag, r)] = _arr(ev.data)
+                    objs[(tag, r)] = ev
+        # laboratory frame: converted outside every context (the frame frequencies belong
+        # to the states of the site basis)
+        lab = {}
+        for key, ev in objs.items():
+            ev.convert_from_RWA(ham)
+            lab[key] = _arr(ev.data)
+            if ev.is_in_rwa:
+                acc.add("b/rwa/%s/%s/still-marked-after-convert_from_RWA" % (kind, B),
+                        "evolution still marked is_in_rwa after convert_from_RWA")
+        for tag, s in states:
+            for frame, res in (("as-returned", got), ("lab-frame", lab)):
+                g = {r: res[(tag, r)] for r in ROUTES if (tag, r) in res}
+                what = ("state %s propagated with the Hamiltonian in the rotating frame "
+                        "(blocks %s), basis %s, %s" % (tag, list(ham.rwa_indices), B,
+                        "data as returned" if frame == "as-returned" else
+                        "after convert_from_RWA"))
+                if "tensor" in g:
+                    sc = max(1.0, float(numpy.max(numpy.abs(g["tensor"]))))
+                    if "op" in g:
+                        acc.same("b/rwa/%s/%s/%s/op-vs-tensor" % (kind, B, frame), "b.rwa.forms",
+                                 g["op"], g["tensor"], "operator form vs four-index form: "
+                                 + what, scale=sc)
+                    if "conv" in g:
+                        acc.same("b/rwa/%s/%s/%s/converted-vs-tensor" % (kind, B, frame),
+                                 "b.rwa.forms", g["conv"], g["tensor"],
+                                 "converted form vs four-index form: " + what, scale=sc)
+                elif "op" in g and "conv" in g:
+                    sc = max(1.0, float(numpy.max(numpy.abs(g["op"]))))
+                    acc.same("b/rwa/%s/%s/%s/op-vs-converted" % (kind, B, frame), "b.rwa.forms",
+                             g["op"], g["conv"], "operator form vs converted form: " + what,
+                             scale=sc)
+            if tag in ref and B in absb:
+                for r in ROUTES:
+                    if (tag, r) in lab:
+                        acc.same("b/rwa-absolute/%s/%s/%s/lab-frame" % (kind, r, B),
+                                 "b.rwa.absolute", lab[(tag, r)], ref[tag], "%s form, state %s, "
+                                 "rotating-frame run in basis %s taken to the laboratory frame "
+                                 "vs Taylor polynomial of the reference Liouvillian of "
+                                 "H - diag(Omega) times exp(-i(Omega_a - Omega_b)t)"
+                                 % (r, tag, B),
+                                 scale=max(1.0, float(numpy.max(numpy.abs(ref[tag])))))
+
+
+def _check_frames(acc):
+    """Frame marker (is_in_rwa) of every evolution returned in this grid point: all routes
+    called in the same basis with the Hamiltonian in the same state must mark their results
+    alike (with equal data, the marker decides what convert_from_RWA makes of them).
+    Reference = the four-index form (its first kind of call)."""
+    for (kind, B, has), d in acc.frames.items():
+        tk = [ks for ks in d if ks[0] == "tensor"]
+        rk = tk[0] if tk else next(iter(d))
+        refset = d[rk]
+        for (k, sfx), fl in d.items():
+            acc.n += 1
+            if fl != refset or len(fl) != 1:
+                acc.add("b/frame-marker/%s/%s/%s-form" % (kind, B, k),
+                        "evolutions returned by the %s form (basis %s, calls%s; Hamiltonian "
+                        "has_rwa = %s) are marked is_in_rwa = %s, those of the %s form%s "
+                        "is_in_rwa = %s" % (k, B, sfx or " on the base axis", has, sorted(fl),
+                                            rk[0], rk[1], sorted(refset)))
 
 
 # ---------------------------------------------------------------------------
@@ -1032,12 +1261,22 @@ def _lindblad_h(case):
     N = case["N"]
     en = [0.0, 110.0, 260.0, 390.0, 480.0][:N]
     h = numpy.diag(en)
-    if case["hpat"] == "coupled":
+    if case["hpat"] in ("coupled", "complex"):
         vals = [50.0, -35.0, 20.0, 65.0, -25.0, 40.0, 15.0, -55.0, 30.0, 45.0]
         k = 0
         for i in range(N):
             for j in range(i + 1, N):
                 h[i, j] = h[j, i] = vals[k % len(vals)]
+                k += 1
+    if case["hpat"] == "complex":
+        # complex Hermitian: eigenbasis_of(H) is a complex unitary transformation
+        ivals = [30.0, 45.0, -25.0, 20.0, 35.0, -15.0, 40.0, 10.0, -50.0, 25.0]
+        h = h.astype(numpy.complex128)
+        k = 0
+        for i in range(N):
+            for j in range(i + 1, N):
+                h[i, j] += 1.0j * ivals[k % len(ivals)]
+                h[j, i] -= 1.0j * ivals[k % len(ivals)]
                 k += 1
     return h
 
@@ -1061,7 +1300,12 @@ def eval_lindblad(case):
         return SystemBathInteraction([Operator(data=K.copy()) for K in Ks], rates=list(rates))
 
     ta = systems.time_axis(case["nt"], case["dt"])
-    H = numpy.array(ham.data, dtype=float, copy=True)
+    H = numpy.array(ham.data, copy=True)
+    if case["hpat"] == "complex":
+        if RA.complexity_of_eigenbasis(H) < 0.05:
+            raise isolation.HarnessError("eigenbasis of the complex Hamiltonian is (nearly) real")
+    else:
+        H = numpy.array(H, dtype=float)
     prop = {"ta": ta, "H": H, "L": 4, "method": None, "nref": 1, "hist": case.get("hist", 2),
             "refine": _refine_spec(case)}
     prop["variants"] = bool(prop["refine"])
@@ -1070,7 +1314,7 @@ def eval_lindblad(case):
                  lambda: LindbladForm(ham, sbi(), as_operators=False), ham, Xop, N,
                  lambda Top: Tref, prop)
     nonsym = any(i != j for (i, j) in case["ops"])
-    return {"nontrivial": bool(nonsym and case["hpat"] == "coupled"),
+    return {"nontrivial": bool(nonsym and case["hpat"] != "diagonal"),
             "outcome": ["lindblad", N, case["hpat"], [list(o) for o in case["ops"]]],
             "violations": acc.viol, "n": acc.n, "info": {"dev": acc.dev}}
 
@@ -1088,7 +1332,7 @@ def eval_td(case):
     TDo = S.tensor(True, True, cutoff)
     TIt = S.tensor(False, False, cutoff)
     TIo = S.tensor(False, True, cutoff)
-    fresh = {B1: S.tensor(True, True, cutoff) for B1 in BASES}    # see _check_forms
+    fresh = {B1: S.tensor(True, True, cutoff) for B1 in ZBASES}   # see _check_forms
     late = _late_tensors(lambda: S.tensor(True, True, cutoff))
     tscale = max(float(numpy.max(numpy.abs(_arr(TIt.data)))), 1.0e-300)
 
@@ -1105,12 +1349,18 @@ def eval_td(case):
         acc.same("c/td/%s/tensor/last-vs-time-independent/out" % ctag, "c.last", d[-1],
                  _arr(TIt.data), "TD tensor at its last time index vs the time-independent "
                  "tensor from the same inputs", scale=tscale)
-        with _basis("H", ham, Xop):
-            dl = _arr(TDt.data)[-1]
-            dti = _arr(TIt.data)
-        acc.same("c/td/%s/tensor/last-vs-time-independent/H" % ctag, "c.last", dl, dti,
-                 "TD tensor at its last time index vs the time-independent tensor, both read "
-                 "inside eigenbasis_of(H)", scale=tscale)
+        for Bc in ("H", "Z"):
+            with _basis(Bc, ham, Xop):
+                dl = _arr(TDt.data)[-1]
+                d0 = _arr(TDt.data)[0]
+                dti = _arr(TIt.data)
+            acc.same("c/td/%s/tensor/last-vs-time-independent/%s" % (ctag, Bc), "c.last", dl, dti,
+                     "TD tensor at its last time index vs the time-independent tensor, both "
+                     "read inside the basis %s" % Bc, scale=tscale)
+            if float(numpy.max(numpy.abs(d0))) != 0.0:
+                acc.add("c/td/%s/tensor/data0-nonzero/%s" % (ctag, Bc),
+                        "TD tensor at time index 0, read inside the basis %s, is not exactly "
+                        "zero: max |R(0)| = %.3g" % (Bc, float(numpy.max(numpy.abs(d0)))))
     lm = numpy.array(TDo.Lm, dtype=complex, copy=True)
     lscale = max(float(numpy.max(numpy.abs(numpy.array(TIo.Lm)))), 1.0e-300)
     nz = float(numpy.max(numpy.abs(lm[0])))
@@ -1130,12 +1380,12 @@ def eval_td(case):
 
     # ---- conversion of the operator form in each basis ---------------------------
     conv = {}
-    for B1 in BASES:
+    for B1 in ZBASES:
         Tc = fresh[B1]
         with _basis(B1, ham, Xop):
             Tc.convert_2_tensor()
         conv[B1] = Tc
-        for B in BASES:
+        for B in ZBASES:
             with _basis(B, ham, Xop):
                 dc = _arr(Tc.data)
                 dt_ = _arr(TDt.data)
@@ -1196,15 +1446,20 @@ def _deph_coherences(w, bt, N):
     return out
 
 
-def _deph_rows(cohs, ev, t, step, L, pick=None):
+def _deph_rows(cohs, ev, t, step, L, pick=None, frame=None):
     """per coherence (label, numerical, exact, bound, exponent) at the stored times: t = times
-    of the axis of the integration steps (length `step`), pick = stored points of it"""
+    of the axis of the integration steps (length `step`), pick = stored points of it.
+    frame: frame frequencies (1/cm) of the states if the integration was done in a rotating
+    frame -- the integrated coherence (i, j) then oscillates with w - (frame_i - frame_j), which
+    is the frequency of the Taylor remainder in the bound (the error of a coherence has the
+    same modulus in both frames)"""
     rows = []
     memo = {}
     for (label, i, j, wv, baths, f) in cohs:
-        key = (wv, tuple(baths))
+        wint = wv if frame is None else abs(wv) - abs(frame[i] - frame[j])
+        key = (wv, wint, tuple(baths))
         if key not in memo:
-            bnd, D, E = LS.first_order_bound(t, step, wv, baths, L=L)
+            bnd, D, E = LS.first_order_bound(t, step, wint, baths, L=L)
             expo = numpy.abs(wv * LS.CM2INT * t)
             for b in baths:
                 expo = expo + numpy.abs(LS.g(t, *b))
@@ -1269,7 +1524,7 @@ def _deph_run(case, nt, dt, acc, again=False, refine=False):
     bt = [(lam, tau, float(case["T"]), M) for (lam, tau) in _deph_baths(case)]
     cohs = _deph_coherences(w, bt, N)
     out = {"rows": _deph_rows(cohs, ev, t, dt, 4), "pdev": _deph_pdev(ev, N), "N": N,
-           "refined": {}, "methods": {}}
+           "refined": {}, "methods": {}, "rwa": None}
     if not refine:
         return out
     pre = _deph_refkey(form)
@@ -1326,6 +1581,20 @@ def _deph_run(case, nt, dt, acc, again=False, refine=False):
             continue
         out["methods"][meth] = (_deph_rows(cohs, evm, t[:nm], dt, ORDER[meth]),
                                 _deph_pdev(evm, N))
+    # rotating frame (changes the Hamiltonian object: last): the frame is set after the tensor
+    # was made, the result is taken to the laboratory frame with convert_from_RWA and must be
+    # the same analytic solution
+    S.ham.set_rwa(list(RWA_BLOCKS))
+    frame = RA.rwa_frequencies(numpy.diag([0.0] + w), RWA_BLOCKS)
+    rho_r = rho0()
+    Pr = ReducedDensityMatrixPropagator(S.ta, S.ham, TD)
+    evr = Pr.propagate(rho_r)
+    _unchanged(acc, "d/%s/alters-initial-state/rwa" % form, before, rho_r,
+               "TD tensor as %s, Hamiltonian in the rotating frame" % form)
+    marked = bool(evr.is_in_rwa)
+    evr.convert_from_RWA(S.ham)
+    evr = _arr(evr.data)
+    out["rwa"] = (_deph_rows(cohs, evr, t, dt, 4, frame=frame), _deph_pdev(evr, N), marked)
     return out
 
 
@@ -1387,6 +1656,19 @@ def eval_dephasing(case):
         if not mpdev <= RTOL / N * 10:
             acc.add("d/%s/method=%s/populations-not-constant" % (form, meth),
                     "populations of uncoupled sites change by %.3g (method %s)" % (mpdev, meth))
+    # rotating frame: laboratory-frame result against the same analytic solution
+    if r1.get("rwa"):
+        rows, wpdev, marked = r1["rwa"]
+        _deph_bound_check(acc, rows, "d/%s/rwa/%%s/exceeds-first-order-bound" % form,
+                          "d.rwa.err/bound", N,
+                          "TD tensor as %s, Hamiltonian in the rotating frame (blocks %s), "
+                          "result after convert_from_RWA (returned evolution marked is_in_rwa "
+                          "= %s), step %g fs" % (form, RWA_BLOCKS, marked, dt))
+        acc.n += 1
+        acc.worst("d.populations", wpdev * N)
+        if not wpdev <= RTOL / N * 10:
+            acc.add("d/%s/rwa/populations-not-constant" % form,
+                    "populations of uncoupled sites change by %.3g (rotating frame)" % wpdev)
     for (lab, num, ex, bnd, expo), (lab2, num2, ex2, bnd2, expo2) in zip(coarse, fine):
         kind = "optical" if "ground" in lab else "intersite"
         for tag, nu, e, b, xp in (("dt", num, ex, bnd, expo), ("dt/2", num2, ex2, bnd2, expo2)):
@@ -1505,12 +1787,15 @@ def lindblad_cases(tier):
                 sets.append([singles[a], singles[b]])
                 if N <= 3 and tier != "quick":
                     sets.append([singles[b], singles[a]])      # rates swapped
-        for hpat in ("diagonal", "coupled"):
+        for hpat in ("diagonal", "coupled", "complex"):
+            if hpat == "complex" and tier == "quick" and N > 2:
+                continue           # complex couplings, quick tier: the two-level systems
             for ops in sets:
                 out.append({"sec": "lindblad", "N": N, "hpat": hpat,
                             "ops": [list(o) for o in ops], "nt": 30, "dt": 2.0,
                             "hist": 2 if tier == "quick" else 3, "refnc": REFNC[tier]})
-    out.sort(key=lambda c: (c["N"], len(c["ops"]), c["hpat"] != "diagonal"))
+    out.sort(key=lambda c: (c["N"], len(c["ops"]),
+                            ("diagonal", "coupled", "complex").index(c["hpat"])))
     return out
 
 
@@ -1654,7 +1939,15 @@ def run(run):
                 "convert_2_tensor in B1 -> propagate in every basis (12 tensors); td and "
                 "dephasing: x time-axis alphabet = non-dyadic bath steps x step ratios x {m*dt "
                 "as floating point product, as decimal number} x Nref in {1, m} x way of "
-                "requesting it.  Non-trivial: "
+                "requesting it; x basis alphabet member Z = eigenbasis of a complex Hermitian "
+                "operator (complex unitary transformation) in clauses (a), (b), (c): action on "
+                "all matrix units, conversion done in / read in each of the 4 bases, spanning "
+                "set x 3 routes propagated inside Z; lindblad: Hamiltonian pattern with complex "
+                "couplings; x rotating frame: Hamiltonian.set_rwa([ground | rest]) after the "
+                "tensors exist (aggregates: from the start), spanning set x 3 routes x 4 bases, "
+                "results compared as returned and after convert_from_RWA, dephasing: the "
+                "converted rotating-frame run against the analytic solution; frame marker "
+                "is_in_rwa of every returned evolution agrees between the routes.  Non-trivial: "
                 "redfield/td = "
                 "resonance coupling != 0 (eigenbasis differs from the site basis); lindblad = "
                 "coupled Hamiltonian and at least one projector with i != j; dephasing = "
@@ -1675,6 +1968,29 @@ def run(run):
         "built by the package (mc/refmodels/lineshape_ob.py); admissible axes: dt <= tau_c/25 "
         "and nu_M dt <= 2 pi (all Matsubara terms representable on the grid)",
         "X = fixed real symmetric matrix with simple spectrum (relax_action.probe_operator)",
+        "Z = fixed complex Hermitian matrix with simple spectrum (relax_action."
+        "probe_operator_complex); the harness checks that its eigenvector matrix S is not a "
+        "real orthogonal matrix times column phases (max |offdiag S^T S| >= 0.05); the same "
+        "check for the complex Hamiltonians of the lindblad section; the base run inside Z "
+        "enters the context once for the whole spanning set; refinements, expansion orders and "
+        "object histories are run in out / H / X only; quick tier: complex couplings for the "
+        "two-level Lindblad systems only",
+        "rotating frame: the package DEFINES it (Hamiltonian.get_RWA_data, "
+        "convert_from_RWA) as integration with H - diag(Omega), Omega = block averages of the "
+        "diagonal of H in the site basis attached to the state positions, and rho_lab[a,b](t) "
+        "= exp(-i(Omega_a - Omega_b)t) rho_rot[a,b](t); that definition is the reference "
+        "(relax_action.rwa_*); the tensor is NOT transformed to the frame by the package (its "
+        "FIXME) and neither by the reference; blocks = [ground | all other states] only; "
+        "absolute value claimed in the site basis and in eigenbasis_of(H) only where H has no "
+        "element between the blocks and the block spectra do not interleave (elsewhere "
+        "diag(Omega) subtracted from the transformed matrix is another operator: route "
+        "agreement only); convert_from_RWA is called after the context is left; the frame is "
+        "set once, after all other sub-products of the grid point, on the default call and "
+        "the short axis; dephasing: Hamiltonian of uncoupled sites, frame frequency of the "
+        "excited block = mean site energy, bound with the Taylor remainder at |w - Omega|",
+        "frame marker: relative check (routes agree with the four-index form called in the "
+        "same basis with the Hamiltonian in the same state), no absolute value of is_in_rwa is "
+        "demanded -- the absolute statement is the laboratory-frame oracle",
         "step refinement: Nref = k on the axis (N, k*dt) is DEFINED (setDtRefinement docstring) "
         "as the calculation with the step dt stored every k-th point; for a time-independent "
         "generator it is therefore compared (class R) with the run with Nref = 1 on the axis of "
@@ -1715,7 +2031,9 @@ def run(run):
                                  "remainder; + unit allowance %g" % LS.UNIT_RTOL,
                                  "halving_ratio_min": HALVING},
                   "cases": {k: len(v) for k, v in secs},
-                  "bases": list(BASES),
+                  "bases": list(ZBASES),
+                  "bases_of_refinements_methods_histories": list(BASES),
+                  "rotating_frame_blocks": list(RWA_BLOCKS),
                   "refinements": {"time_independent": [_vlab(v, False)
                                                        for v in _refinements(False)],
                                   "time_dependent": [_vlab(v, True) for v in _refinements(True)],
